@@ -270,12 +270,27 @@ func runC03(c *Ctx) {
 		}
 		c.Min("C03.3-apply-on-copy", 4)
 		addRaw := p.Func(aclList + ":(*aclList).AddRawRecord")
-		setState := p.Func(aclList + ":(*aclList).setState")
+		setState := p.FuncOpt(aclList + ":(*aclList).setState") // may have been inlined into its only caller
 		var sinks []ssa.Instruction
-		sinks = append(sinks, CallSinks(addRaw, CalleeFn(setState), false)...)
+		if setState != nil {
+			sinks = append(sinks, CallSinksX(addRaw, CalleeFn(setState), false)...)
+		}
+		// direct writes, also inside a commit helper new since the anchor snapshot
+		listWrite := map[ssa.Instruction]bool{}
 		for _, f := range []string{"records", "indexes", "aclState"} {
-			for _, w := range FieldWrites([]*ssa.Function{addRaw}, p.Field(aclList+":aclList."+f)) {
-				sinks = append(sinks, w.Instr)
+			for _, w := range FieldWrites(regionFuncs(addRaw), p.Field(aclList+":aclList."+f)) {
+				listWrite[w.Instr] = true
+			}
+		}
+		for _, s := range InstrSinksX(addRaw, func(in ssa.Instruction) bool { return listWrite[in] }) {
+			dup := false
+			for _, x := range sinks {
+				if x == s {
+					dup = true
+				}
+			}
+			if !dup {
+				sinks = append(sinks, s)
 			}
 		}
 		c.RequireGate("C03.3-apply-on-copy", addRaw, GErrNil("ApplyRecord()==nil", CalleeFn(applyRecord)), sinks, "list mutation (setState / records / indexes)")
@@ -286,6 +301,10 @@ func runC03(c *Ctx) {
 			}
 			n := TopFunc(w.Fn).Name()
 			ok := n == "setState" || n == "build"
+			if !ok && setState == nil {
+				// setState inlined: the write belongs to AddRawRecord (or a part of it split off since)
+				ok = allowedVia(p, w.Fn, func(f *ssa.Function) bool { return f == addRaw })
+			}
 			c.Check(ok, "C03.3-apply-on-copy", FuncName(w.Fn)+"|aclState-writer", p.Pos(InstrPos(w.Instr)), "aclList.aclState replaced only by setState / build")
 		}
 	}
